@@ -17,7 +17,7 @@
   -- [V] target independence of `draw` (Rust parametricity in the `DrawTarget`): the same call list reaches R1 and R2, carried by correspondence + oracle only
 -/
 import EG.Lemmas.ImageRawImage
-import EG.Props.C16
+import EG.Lemmas.ImageRawRows
 namespace EG.C09
 open EG EG.Raw EG.Img
 
@@ -40,6 +40,15 @@ theorem new_const_eq (bits : Nat) (o : Order) (data : List Nat) (size : Sz) :
     ImageRaw.newConst bits o data size =
       if data.length = bytesPerRow size.w bits * size.h then some ⟨bits, o, data, size⟩ else none :=
   ImageRaw.newConst_eq bits o data size
+
+/-- A buffer accepted by `new` (of one of the seven raw types, with sizes that survive `as i32` and
+at most `usize::MAX` pixels) is well formed: the hypothesis `WF` of the theorems below. -/
+theorem wf_of_new (bits : Nat) (o : Order) (data : List Nat) (size : Sz) (im : ImageRaw)
+    (h : ImageRaw.new bits o data size = .ok im) (hb : validBits bits = true)
+    (hw : size.w ≤ 2147483647) (hh : size.h ≤ 2147483647) (hf : Fits bits data) : im.WF :=
+  ImageRaw.wf_of_new h hb hw hh hf
+example : ImageRaw.new 1 .le [0xAA, 0x00, 0x55, 0xFF, 0xAA, 0x80] ⟨9, 3⟩ = .ok exIm :=
+  (ImageRaw.new_ok_iff _ _ _ _ _).mpr ⟨by decide, rfl⟩
 
 /-- Rows are padded to whole bytes: `bytes_per_row` is the least number of bytes holding `w` pixels. -/
 theorem bytes_per_row_is_ceiling (w bits : Nat) :
@@ -70,6 +79,26 @@ example : exIm24.WF := exIm24_wf
 theorem pixel_none_iff (im : ImageRaw) (hw : im.WF) (p : Pt) :
     im.pixel p = none ↔ im.boundingBox.contains p = false := ImageRaw.pixel_none_iff hw p
 
+/-- The same claim for every size a `u32` can hold (no `<= i32::MAX` guard) ... -/
+def PixelNoneIffAllSizes : Prop :=
+  ∀ (im : ImageRaw) (p : Pt), validBits im.bits = true →
+    im.data.length = bytesPerRow im.size.w im.bits * im.size.h →
+    (im.pixel p = none ↔ im.boundingBox.contains p = false)
+
+/-- ... is false: `pixel` compares with `width as i32`, which wraps. Witness: the `2^31 x 1` one bit
+image (`2^28` bytes), `pixel((0,0)) = None` although `(0,0)` is inside the bounding box. Replayed on
+the real code by the op `image.wide 1 0 2147483648 1` (see corpus/C09.ops); far outside the display
+scale, so `pixel_none_iff` carries the guard `WF.wI32`/`WF.hI32`. -/
+theorem pixel_none_iff_all_sizes_false : ¬ PixelNoneIffAllSizes := by
+  intro h
+  have h1 := h ⟨1, .le, List.replicate 268435456 0, ⟨2147483648, 1⟩⟩ ⟨0, 0⟩ (by decide)
+    (by rw [List.length_replicate]; decide)
+  rw [ImageRaw.pixel_none_of_width_wraps _ rfl] at h1
+  have h2 : (ImageRaw.boundingBox ⟨1, .le, List.replicate 268435456 0, ⟨2147483648, 1⟩⟩).contains ⟨0, 0⟩ = true := by
+    rw [ImageRaw.contains_boundingBox]; simp only; omega
+  rw [h2] at h1
+  exact absurd (h1.mp rfl) (by decide)
+
 /-- Inside, `pixel((x, y))` is raw pixel `x + y * data_width` of the buffer (rows start at
 multiples of the padded width, i.e. on byte boundaries). -/
 theorem pixel_eq_load (im : ImageRaw) (hw : im.WF) (p : Pt) :
@@ -77,6 +106,13 @@ theorem pixel_eq_load (im : ImageRaw) (hw : im.WF) (p : Pt) :
       if im.boundingBox.contains p = true then
         load im.bits im.order im.data (p.x.toNat + p.y.toNat * im.dataWidth)
       else none := ImageRaw.pixel_eq hw p
+
+/-- **Rows are padded to whole bytes**: row `y` occupies the bytes
+`data[y * bytes_per_row .. (y + 1) * bytes_per_row]` and pixel `(x, y)` is raw pixel `x` of that
+slice — every depth, both data orders. -/
+theorem pixel_row_aligned (im : ImageRaw) (hw : im.WF) (x y : Nat) (hx : x < im.size.w) (hy : y < im.size.h) :
+    im.pixel ⟨x, y⟩ = load im.bits im.order (im.rowBytes y) x := ImageRaw.pixel_row_aligned hw hx hy
+example : exIm.rowBytes 1 = [0x55, 0xFF] ∧ exIm24.rowBytes 1 = [7, 8, 9, 10, 11, 12] := by decide
 
 example : exIm.pixel ⟨8, 1⟩ = some 1 ∧ exIm.pixel ⟨8, 0⟩ = some 0 ∧ exIm.pixel ⟨9, 0⟩ = none := by decide
 
@@ -150,6 +186,15 @@ theorem sub_stream (d : Drawable) (h : d.Good) :
       (d.draw = [] ∧ d.boundingBox.isZeroSized = true) := by
   rw [Rect.points_eq_spec]; exact Drawable.draw_spec h
 
+/-- **`sub_stream_length`**: whatever a good drawable (raw image, sub-image, nested sub-image)
+hands to `fill_contiguous` has exactly `width * height` colours for the area it names — also when
+more image data follows the last row of a sub-image. -/
+theorem sub_stream_length (d : Drawable) (h : d.Good) (a : Rect) (cs : List Color)
+    (hc : Call.fillContiguous a cs ∈ d.draw) :
+    a = d.boundingBox ∧ cs.length = a.size.w * a.size.h := Drawable.stream_length h hc
+example : Call.fillContiguous ⟨⟨0, 0⟩, ⟨3, 2⟩⟩ [0, 1, 1, 1, 0, 1] ∈
+    ((Drawable.raw exIm).subImage ⟨⟨6, 1⟩, ⟨9, 2⟩⟩).draw := by decide
+
 /-- The picture of a sub-image: the parent's pixels inside the clipped area, re-based to the origin. -/
 theorem sub_pixel_spec (d : Drawable) (area : Rect) (p : Pt) :
     (d.subImage area).pixelSpec p =
@@ -192,7 +237,7 @@ theorem draw_exact (d : Drawable) (h : d.Good) (o : Pt) (hr : (Image.new d o).bo
   rw [Image.runNative_draw _ h hr]
   unfold Image.picture
   by_cases hb : B.contains q = true <;> by_cases hc : (Image.new d o).boundingBox.contains q = true <;>
-    simp only [hb, hc, and_self, and_false, false_and, and_true, ↓reduceIte, Bool.false_eq_true] <;> rfl
+    simp only [hb, hc, and_self, and_false, and_true, ↓reduceIte, Bool.false_eq_true] <;> rfl
 example : (Image.new (.raw exIm) ⟨-4, 7⟩).boundingBox.InRange := by decide
 
 /-- The same on a target that implements `draw_iter` only (trait defaults). -/
